@@ -1,4 +1,5 @@
-import PbVerif.Lemmas.MsgAlg
+import PbVerif.Lemmas.MsgAlgInit
+import PbVerif.Lemmas.MsgAlgExamples
 /-
 C10 — required-field checks are exact (model: `Pb.initMsg` = proto/checkinit.go
 `checkInitializedSlow`).
@@ -150,5 +151,174 @@ every message of the value tree — for all (cyclic) schemas and all message val
 theorem initMsg_iff (S : Schema) (mi : Nat) (m : Msg) :
     initMsg S mi m = true ↔ AllRequiredSet S mi m :=
   ⟨fun h _ _ r => initMsg_requiredSet (initMsg_reach r h), initMsg_of_all S m mi⟩
+
+/-- the hypotheses of `initMsg_iff`: none.  A non-trivial instance: the required field 8 is set at the
+top level and in the submessage of field 3; dropping it in the submessage is detected -/
+example : initMsg Ex.S0 0 Ex.m0 = true ∧
+    initMsg Ex.S0 0 (.mk (.cons 8 (.one (.num 3))
+      (.cons 3 (.one (.msg (.mk (.cons 1 (.one (.num 7)) .nil) []))) .nil)) []) = false := by decide
+
+/-! ### merge and clone preserve initialization -/
+
+mutual
+/-- generalised: the destination only needs initialized *nested* values (`initFields`), its own
+required fields may be missing — they are supplied by the source -/
+theorem initMsg_mergeAux (S : Schema) : ∀ (b a : Msg) (mi : Nat),
+    initFields S (S.msg mi) a.fields = true → initMsg S mi b = true → pwfMsg S mi b = true →
+    initMsg S mi (mergeMsg S mi a b) = true
+  | .mk sfs su, .mk dfs du, mi, ha, hb, hw => by
+    rw [pwfMsg] at hw
+    rw [initMsg, Bool.and_eq_true, List.all_eq_true] at hb
+    rw [mergeMsg_mk, initMsg, Bool.and_eq_true, List.all_eq_true]
+    constructor
+    · intro f hf
+      by_cases hreq : f.card = .required
+      · have h1 := hb.1 f hf
+        simp only [hreq, ne_eq, not_true_eq_false, decide_false, Bool.false_or] at h1 ⊢
+        cases hg : sfs.get? f.num with
+        | none => rw [hg] at h1; cases h1
+        | some fv =>
+          obtain ⟨f', hf', hwv⟩ := pwfFields_get hw hg
+          rw [mergeFields_get? S _ sfs dfs (mergeOK_of_pwfFields hw) f.num, hg, hf']
+          have hn := MsgD.find_num hf'
+          have := get?_mergeFVal_isSome S (S.msg mi) f' dfs fv hwv
+          rw [hn] at this
+          exact this
+      · simp [hreq]
+    · exact initFields_merge S sfs dfs _ ha hb.2 hw
+theorem initFields_merge (S : Schema) : ∀ (src dst : Fields) (d : MsgD),
+    initFields S d dst = true → initFields S d src = true → pwfFields S d src = true →
+    initFields S d (mergeFields S d dst src) = true
+  | .nil, dst, d, hd, _, _ => by rw [mergeFields_nil]; exact hd
+  | .cons n fv tl, dst, d, hd, hs, hw => by
+    rw [initFields_cons, Bool.and_eq_true] at hs
+    rw [pwfFields, Bool.and_eq_true, Bool.and_eq_true, Bool.and_eq_true] at hw
+    rw [mergeFields_cons]
+    refine initFields_merge S tl _ d ?_ hs.2 hw.2
+    have h1 := hw.1.1.1
+    have h2 := hs.1
+    unfold mergeField
+    unfold initField at h2
+    split at h1
+    · rename_i f hf
+      rw [hf] at h2
+      simp only [hf]
+      have hn := MsgD.find_num hf
+      exact initFields_mergeFVal S fv f dst d (by rw [hn]; exact hf) hd h2 h1
+    · cases h1
+theorem initFields_mergeFVal (S : Schema) : ∀ (fv : FVal) (f : Field) (dst : Fields) (d : MsgD),
+    d.find f.num = some f → initFields S d dst = true → initFVal S f fv = true →
+    pwfFVal S f fv = true → initFields S d (mergeFVal S d f dst fv) = true
+  | .one (.msg sm), f, dst, d, hf, hd, hi, hw => by
+    rw [initFVal, initVal] at hi
+    rw [pwfFVal, Bool.and_eq_true, pwfVal] at hw
+    rw [mergeFVal, mergeVal_msg]
+    refine initFields_set (initFields_clearFor hd f) _ _ (fun f' hf' => ?_)
+    rw [hf] at hf'
+    cases hf'
+    rw [initFVal, initVal]
+    exact initMsg_mergeAux S sm (dst.subAt f.num) f.sub (initFields_subAt hd hf) hi hw.1
+  | .one (.num n), f, dst, d, hf, hd, _, _ => by
+    rw [mergeFVal, mergeVal_scalar _ _ _ _ _ rfl, setSingular_eq]
+    split
+    · exact initFields_erase (initFields_clearFor hd f) _
+    · exact initFields_set (initFields_clearFor hd f) _ _ (fun f' _ => by simp [initFVal, initVal])
+  | .one (.bytes b), f, dst, d, hf, hd, _, _ => by
+    rw [mergeFVal, mergeVal_scalar _ _ _ _ _ rfl, setSingular_eq]
+    split
+    · exact initFields_erase (initFields_clearFor hd f) _
+    · exact initFields_set (initFields_clearFor hd f) _ _ (fun f' _ => by simp [initFVal, initVal])
+  | .many vs, f, dst, d, hf, hd, hi, hw => by
+    rw [initFVal] at hi
+    rw [pwfFVal, Bool.and_eq_true] at hw
+    by_cases hc : f.card = .map
+    · simp only [hc, if_true] at hw
+      rw [mergeFVal_many_map S d f dst vs hc]
+      split
+      · exact hd
+      · refine initFields_set hd _ _ (fun f' hf' => ?_)
+        rw [hf] at hf'
+        cases hf'
+        rw [initFVal]
+        exact initVals_mergeMap S vs (dst.listAt f.num) f (initVals_listAt hd hf) hi hw.2
+    · simp only [hc, if_false] at hw
+      rw [mergeFVal_many_list S d f dst vs hc, appendList_eq]
+      split
+      · exact hd
+      · refine initFields_set hd _ _ (fun f' hf' => ?_)
+        rw [hf] at hf'
+        cases hf'
+        rw [initFVal]
+        exact initVals_append (initVals_listAt hd hf) (initVals_clone S vs f hi hw.2)
+theorem initVals_clone (S : Schema) : ∀ (vs : Vals) (f : Field), initVals S f vs = true →
+    pwfVals S f vs = true → initVals S f (cloneVals S f vs) = true
+  | .nil, _, _, _ => by rw [cloneVals, initVals]
+  | .cons (.msg m) tl, f, hi, hw => by
+    rw [initVals, Bool.and_eq_true, initVal] at hi
+    rw [pwfVals, Bool.and_eq_true, pwfVal] at hw
+    rw [cloneVals, cloneVal, initVals, Bool.and_eq_true, initVal]
+    exact ⟨initMsg_mergeAux S m Msg.empty f.sub rfl hi.1 hw.1, initVals_clone S tl f hi.2 hw.2⟩
+  | .cons (.num n) tl, f, hi, hw => by
+    rw [initVals, Bool.and_eq_true] at hi
+    rw [pwfVals, Bool.and_eq_true] at hw
+    rw [cloneVals, cloneVal, initVals, Bool.and_eq_true]
+    · exact ⟨by simp [initVal], initVals_clone S tl f hi.2 hw.2⟩
+    · intro m hh; cases hh
+  | .cons (.bytes b) tl, f, hi, hw => by
+    rw [initVals, Bool.and_eq_true] at hi
+    rw [pwfVals, Bool.and_eq_true] at hw
+    rw [cloneVals, cloneVal, initVals, Bool.and_eq_true]
+    · exact ⟨by simp [initVal], initVals_clone S tl f hi.2 hw.2⟩
+    · intro m hh; cases hh
+theorem initVals_mergeMap (S : Schema) : ∀ (vs dst : Vals) (f : Field), initVals S f dst = true →
+    initVals S f vs = true → pwfEntries S f.sub vs = true →
+    initVals S f (mergeMapVals S f.sub dst vs) = true
+  | .nil, dst, _, hd, _, _ => by rw [mergeMapVals]; exact hd
+  | .cons (.msg e) tl, dst, f, hd, hi, hw => by
+    obtain ⟨e', k, he, hk, _, _, hwe, htl⟩ := pwfEntries_cons_msg hw
+    cases he
+    rw [initVals, Bool.and_eq_true, initVal] at hi
+    rw [mergeMapVals_cons_msg S f.sub dst e tl k hk]
+    refine initVals_mergeMap S tl _ f ?_ hi.2 htl
+    exact initVals_mapPut hd k _ (initMsg_mergeAux S e Msg.empty f.sub rfl hi.1 hwe)
+  | .cons (.num n) tl, _, _, _, _, hw => by
+    obtain ⟨e', _, he, _⟩ := pwfEntries_cons_msg hw
+    cases he
+  | .cons (.bytes b) tl, _, _, _, _, hw => by
+    obtain ⟨e', _, he, _⟩ := pwfEntries_cons_msg hw
+    cases he
+end
+
+/-- merging an initialized (populated, well-formed) source into an initialized destination gives
+an initialized message — the destination may be ANY message value with initialized nested values -/
+theorem initMsg_merge (S : Schema) (mi : Nat) (a b : Msg) (ha : initMsg S mi a = true)
+    (hb : initMsg S mi b = true) (hw : pwfMsg S mi b = true) :
+    initMsg S mi (mergeMsg S mi a b) = true := by
+  refine initMsg_mergeAux S b a mi ?_ hb hw
+  cases a with
+  | mk fs u =>
+    rw [initMsg, Bool.and_eq_true] at ha
+    exact ha.2
+
+theorem initMsg_clone (S : Schema) (mi : Nat) (b : Msg) (hb : initMsg S mi b = true)
+    (hw : pwfMsg S mi b = true) : initMsg S mi (clone S mi b) = true :=
+  initMsg_mergeAux S b Msg.empty mi rfl hb hw
+
+example : initMsg Ex.S0 0 Ex.m0 = true ∧ pwfMsg Ex.S0 0 Ex.m0 = true := by decide
+
+/-- without the populated-well-formed hypothesis on the source the law fails: a "populated" but
+empty list in a required field is dropped by merge -/
+theorem initMsg_merge_needs_pwf :
+    let S : Schema := ⟨[⟨[{ num := 1, kind := .int32, card := .required }]⟩]⟩
+    let b : Msg := .mk (.cons 1 (.many .nil) .nil) []
+    initMsg S 0 b = true ∧ initMsg S 0 (mergeMsg S 0 Msg.empty b) = false := by decide
+
+/-- … and so does a source holding two members of one oneof when (in an invalid schema) a oneof
+member is `required`: the later member clears the earlier -/
+theorem initMsg_merge_needs_oneof_exclusive :
+    let S : Schema := ⟨[⟨[{ num := 1, kind := .int32, card := .required, oneof := some 0 },
+                         { num := 2, kind := .int32, card := .optional, oneof := some 0 }]⟩]⟩
+    let b : Msg := .mk (.cons 1 (.one (.num 1)) (.cons 2 (.one (.num 2)) .nil)) []
+    initMsg S 0 b = true ∧ initMsg S 0 (mergeMsg S 0 b b) = false := by decide
 
 end C10
